@@ -171,7 +171,8 @@ def execute(plan):
                     continue
                 k = (li == 0) or (id(m) not in seen_json)
                 text = None
-                if li == 0 or plan["listeners"][li]["cfg"].get("build_network_map") or plan["listeners"][li]["cfg"].get("exclude_pgns"):
+                if li == 0 or plan["listeners"][li]["cfg"].get("build_network_map") or plan["listeners"][li]["cfg"].get("exclude_pgns") \
+                        or plan["listeners"][li]["cfg"].get("preferred_units"):
                     text = json_monitor(m, enc, evno, v, st)
                 if text is None:
                     try:
